@@ -258,7 +258,7 @@ func c03run(r *ev.Run) {
 	if thorough(r) {
 		bareK, parenK, maxNeg, tightK = 5, 4, 2, 3
 	}
-	r.Rule = fmt.Sprintf("every chain of k<=%d operators over all %d spellings (bare), and for k<=%d every placement of one parenthesised contiguous sub-chain x every set of <=%d negated operands (incl. a negated group); each chain of k<=%d operators also written without blanks around its symbol operators; state = distinct expression text; non-trivial = parsed and compared with the reference grouping", bareK, nops, parenK, maxNeg, tightK)
+	r.Rule = fmt.Sprintf("every chain of k<=%d operators over all %d spellings (bare), and for k<=%d every placement of one parenthesised contiguous sub-chain x every set of <=%d negated operands (incl. a negated group); in the quick tier also every level pattern of length 4 and 5 with the first and the last spelling of each level; each chain of k<=%d operators also written without blanks around its symbol operators; state = distinct expression text; non-trivial = parsed and compared with the reference grouping", bareK, nops, parenK, maxNeg, tightK)
 	r.Set("operator_spellings", nops)
 	r.Set("max_chain_bare", bareK)
 	r.Set("max_chain_with_parens_and_negation", parenK)
@@ -278,6 +278,36 @@ func c03run(r *ev.Run) {
 		r.Sample(n, func() interface{} { return text })
 		for _, f := range c03eval(c) {
 			r.Report(f)
+		}
+	}
+	// longer chains by level pattern: every sequence of levels of length 4 and 5 with one operator per level (what
+	// the grouping depends on is the level sequence), with the first and with the last spelling of each level; the quick tier stops exhaustive spellings at k=3
+	if bareK < 5 {
+		rep := map[int][]int{} // level -> operator indices
+		for i, o := range c03ops {
+			if !o.regex {
+				rep[o.level] = append(rep[o.level], i)
+			}
+		}
+		for k := 4; k <= 5; k++ {
+			total := 1
+			for i := 0; i < k; i++ {
+				total *= 5
+			}
+			kk := k
+			parallelFor(total, func(idx int) {
+				ops := make([]int, kk)
+				alt := make([]int, kk)
+				x := idx
+				for i := 0; i < kk; i++ {
+					lv := x%5 + 1
+					ops[i] = rep[lv][0]
+					alt[i] = rep[lv][len(rep[lv])-1]
+					x /= 5
+				}
+				run(c03Case{Ops: ops, ParenI: -1, ParenJ: -1})
+				run(c03Case{Ops: alt, ParenI: -1, ParenJ: -1})
+			})
 		}
 	}
 	for k := 1; k <= bareK; k++ {
